@@ -156,12 +156,15 @@ fn resolve<S: HasComponent<Component>>(
         token::Value::CommandRef(command_ref) => command_ref,
         _ => unreachable!(),
     };
-    let (array_index, array_len) = *input
-        .state()
-        .component()
-        .array_refs
-        .get(&command_ref)
-        .unwrap();
+    // The array is looked up using the name it was created with.
+    // A copy of the command made with \let has a different name and so can't be resolved.
+    let Some(&(array_index, array_len)) = input.state().component().array_refs.get(&command_ref)
+    else {
+        return Err(input.fatal_error(error::SimpleTokenError::new(
+            token,
+            r"this command is not the name of an array created by \newIntArray (arrays can not be aliased using \let)",
+        )));
+    };
     let inner_index = parse::Uint::<{ parse::Uint::MAX }>::parse(input)?.0;
     if inner_index >= array_len {
         return Err(input.fatal_error(error::SimpleTokenError::new(
